@@ -308,6 +308,8 @@ def check_case(case):
         for key in broker.missing_requirements:
             if index.get(key) is None:
                 V("accounting:recorded-under-foreign-key", "keys inside the graph", {"missing_key": _kname(key, index)})
+        case["_outcome"] = "values=%d:recorded=%d:missing=%d:raised=%d" % (
+            sum(1 for c in g.nodes if c in broker), len(recorded), len(broker.missing_requirements), len(g.raised))
         return vio
     finally:
         g.cleanup()
@@ -339,7 +341,7 @@ def run_unit(unit, tier):
                 except Exception:
                     import traceback
                     vio = [("harness:raises", "no exception", traceback.format_exc()[-900:], {})]
-                res.case(nontrivial=bool(placement), outcome="%s" % ",".join(sorted(set(v[0] for v in vio))),
+                res.case(nontrivial=bool(placement), outcome="%s|%s" % (",".join(sorted(set(v[0] for v in vio))), case.pop("_outcome", "?")),
                          sample=case if (placement and res.evals % 5000 == 11) else None)
                 for v in vio:
                     res.violation(v[0], case, v[1], v[2], v[3])
@@ -360,7 +362,7 @@ def run_unit(unit, tier):
                 except Exception:
                     import traceback
                     vio = [("harness:raises", "no exception", traceback.format_exc()[-900:], {})]
-                res.case(nontrivial=k > 0, outcome="%s" % ",".join(sorted(set(v[0] for v in vio))),
+                res.case(nontrivial=k > 0, outcome="%s|%s" % (",".join(sorted(set(v[0] for v in vio))), case.pop("_outcome", "?")),
                          sample=case if (k == 2 and res.evals % 400 == 7) else None)
                 res.maxi("max_faults_placed", k)
                 for v in vio:
